@@ -170,3 +170,20 @@ func TestMain(m *testing.M) {
 	tree.Cleanup()
 	os.Exit(code)
 }
+
+// TestAdhoc renders VERIF_ADHOC (a template) with VERIF_ADHOC_DATA (a JSON object) once and prints
+// the outcome; a development aid, skipped in every registered run.
+func TestAdhoc(t *testing.T) {
+	src := os.Getenv("VERIF_ADHOC")
+	if src == "" {
+		t.Skip("no VERIF_ADHOC")
+	}
+	data := map[string]any{}
+	if d := os.Getenv("VERIF_ADHOC_DATA"); d != "" {
+		if err := json.Unmarshal([]byte(d), &data); err != nil {
+			t.Fatal(err)
+		}
+	}
+	out, err := textwire.EvaluateString(src, data)
+	fmt.Printf("ADHOC out=%q err=%v\n", out, err)
+}
